@@ -18,6 +18,10 @@
 //!   [4 dangling-link]  pkg/gone.slice -> nowhere.slice
 //!   [5 invalid-utf8]   pkg/deep/bad.slice                  (the "unreadable" entry: the harness runs as root,
 //!                                                           permission bits cannot make a file unreadable)
+//!   [6 special-files]  pkg/pipe.slice (a FIFO)  sub/null.slice -> /dev/null   (only in the two trees of the
+//!                      `special` family: exist, named *.slice, neither a regular file nor a directory; listed
+//!                      directly they cannot be "compiled once", so an E001 is demanded and nothing is parsed -
+//!                      slicec used to drop them without a word; below a reference directory: softening (iii))
 //! ```
 //! `sub` is kept small on purpose: below the cycle the real walk visits it 41 times per way in, with paths of
 //! up to 40 links, which costs ~1 ms per expansion (measured) — everything else costs ~45 µs per scenario.
@@ -78,7 +82,8 @@ use std::sync::{Arc, Mutex, OnceLock};
 use std::time::Instant;
 
 const FAM: &str = "c17/resolve";
-const OPT_NAMES: [&str; 6] = ["empty-dir", "file-link", "dir-link", "cycle", "dangling-link", "invalid-utf8"];
+const OPT_NAMES: [&str; 7] = ["empty-dir", "file-link", "dir-link", "cycle", "dangling-link", "invalid-utf8", "special-files"];
+const SPECIAL_BIT: u32 = 1 << 6;
 const CYCLE_BIT: u32 = 1 << 3;
 /// A single compilation of a handful of 30-byte files normally takes < 5 ms (40-level walks included).
 const SLOW_SECS: f64 = 20.0;
@@ -91,6 +96,10 @@ enum Kind {
     Slice,
     Other,
     BadUtf8,
+    /// exists, named `*.slice`, but is neither a regular file nor a directory: a FIFO
+    Fifo,
+    /// ... or a link to the device /dev/null
+    Device,
 }
 
 #[derive(Clone, Debug)]
@@ -141,6 +150,10 @@ fn model_tree(bits: u32) -> Node {
     if bits & 32 != 0 {
         insert(&mut root, "pkg/deep/bad.slice", Node::File(Kind::BadUtf8));
     }
+    if bits & SPECIAL_BIT != 0 {
+        insert(&mut root, "pkg/pipe.slice", Node::File(Kind::Fifo));
+        insert(&mut root, "sub/null.slice", Node::File(Kind::Device));
+    }
     root
 }
 
@@ -182,11 +195,16 @@ fn spellings(bits: u32) -> Vec<String> {
     if bits & 32 != 0 {
         v.push("pkg/deep/bad.slice"); // unreadable (invalid UTF-8) listed directly
     }
+    if bits & SPECIAL_BIT != 0 {
+        v.push("pkg/pipe.slice"); // a FIFO listed directly
+        v.push("sub/null.slice"); // a link to /dev/null listed directly
+        v.push("pkg"); // a directory with the FIFO below it
+    }
     v.into_iter().map(String::from).collect()
 }
 
 fn opt_names(bits: u32) -> Vec<&'static str> {
-    (0..6).filter(|i| bits & (1 << i) != 0).map(|i| OPT_NAMES[i]).collect()
+    (0..7).filter(|i| bits & (1 << i) != 0).map(|i| OPT_NAMES[i]).collect()
 }
 
 fn has_slice_ext(name: &str) -> bool {
@@ -273,7 +291,7 @@ struct Expansion {
     events: Vec<(Id, Kind)>,
     /// the walk met a link back to a directory it is inside of
     into_cycle: bool,
-    /// the walk met a dangling link named `*.slice`
+    /// the walk met a dangling link named `*.slice` (or a FIFO / device named `*.slice`)
     dangling: bool,
 }
 
@@ -302,6 +320,12 @@ fn expand(root: &Node, dir: &[String], stack: &mut Vec<Vec<String>>, out: &mut E
                     expand(root, &c, stack, out);
                 }
             }
+            Res::File(_, Kind::Fifo | Kind::Device) => {
+                // softening (iii) also covers an entry named `*.slice` that is neither a file nor a directory
+                if has_slice_ext(name) {
+                    out.dangling = true;
+                }
+            }
             Res::File(id, k) => {
                 if has_slice_ext(name) {
                     out.events.push((id, k));
@@ -322,6 +346,8 @@ fn expand(root: &Node, dir: &[String], stack: &mut Vec<Vec<String>>, out: &mut E
 enum Arg {
     Missing,
     NonSlice(Id),
+    /// exists, has the extension, is neither a regular file nor a directory
+    Special(Id),
     File(Id, Kind),
     Dir(Id, Expansion),
 }
@@ -331,7 +357,9 @@ fn classify(root: &Node, root_abs: &str, spelling: &str) -> Arg {
         Res::Missing => Arg::Missing,
         Res::File(id, k) => {
             let last = spelling.trim_end_matches('/').rsplit('/').next().unwrap_or("");
-            if has_slice_ext(last) {
+            if has_slice_ext(last) && matches!(k, Kind::Fifo | Kind::Device) {
+                Arg::Special(id)
+            } else if has_slice_ext(last) {
                 Arg::File(id, k)
             } else {
                 Arg::NonSlice(id)
@@ -400,6 +428,11 @@ fn materialise(dir: &PathBuf, canon: &mut Vec<String>, node: &Node) {
             Node::File(Kind::Slice) => std::fs::write(&p, file_text(&canon.join("/"))).expect("c17: write file"),
             Node::File(Kind::Other) => std::fs::write(&p, "module NotSlice\n").expect("c17: write file"),
             Node::File(Kind::BadUtf8) => std::fs::write(&p, b"module Bad\n\xff\xfe\n").expect("c17: write file"),
+            Node::File(Kind::Fifo) => {
+                let c = std::ffi::CString::new(p.to_str().expect("c17: UTF-8 path")).unwrap();
+                assert_eq!(unsafe { libc::mkfifo(c.as_ptr(), 0o644) }, 0, "c17: mkfifo");
+            }
+            Node::File(Kind::Device) => std::os::unix::fs::symlink("/dev/null", &p).expect("c17: create symlink"),
             Node::Link(t) => std::os::unix::fs::symlink(t, &p).expect("c17: create symlink"),
         }
         canon.pop();
@@ -471,6 +504,11 @@ fn expect(b: &Built, sources: &[usize], references: &[usize]) -> Expect {
                 errs.insert(id.clone());
                 e.why_io.push(format!("source {:?} has no .slice extension", b.shown[s]));
             }
+            Arg::Special(id) => {
+                nerr += 1;
+                errs.insert(id.clone());
+                e.why_io.push(format!("source {:?} is neither a regular file nor a directory", b.shown[s]));
+            }
             Arg::Dir(id, _) => {
                 nerr += 1;
                 errs.insert(format!("{id}/"));
@@ -520,6 +558,11 @@ fn expect(b: &Built, sources: &[usize], references: &[usize]) -> Expect {
                 nerr += 1;
                 errs.insert(id.clone());
                 e.why_io.push(format!("reference {:?} has no .slice extension", b.shown[r]));
+            }
+            Arg::Special(id) => {
+                nerr += 1;
+                errs.insert(id.clone());
+                e.why_io.push(format!("reference {:?} is neither a regular file nor a directory", b.shown[r]));
             }
             Arg::File(id, k) => reach(id, *k, &mut group),
             Arg::Dir(_, x) => {
@@ -839,7 +882,7 @@ impl Family for Lists {
         let (lo, hi) = self.rest_len();
         json!({
             "tree_options": opt_names(bits),
-            "tree": "a.slice b.slice notes.txt sub/c.slice pkg/{d.slice,readme.md,x.slice.bak,v2.slice/f.slice,deep/{slice,er/e.slice}} + options: empty-dir=pkg/empty/, file-link=sub/la.slice->../a.slice, dir-link=dl->sub, cycle=sub/loop->., dangling-link=pkg/gone.slice->nowhere.slice, invalid-utf8=pkg/deep/bad.slice",
+            "tree": "a.slice b.slice notes.txt sub/c.slice pkg/{d.slice,readme.md,x.slice.bak,v2.slice/f.slice,deep/{slice,er/e.slice}} + options: empty-dir=pkg/empty/, file-link=sub/la.slice->../a.slice, dir-link=dl->sub, cycle=sub/loop->., dangling-link=pkg/gone.slice->nowhere.slice, invalid-utf8=pkg/deep/bad.slice, special-files=pkg/pipe.slice (FIFO) + sub/null.slice->/dev/null",
             "cwd": "<root> (the tree)",
             "sources": src.iter().map(|&i| sp[alpha[i]].clone()).collect::<Vec<_>>(),
             "references": match first {
@@ -905,7 +948,7 @@ impl Family for Lists {
 }
 
 pub fn meta(m: &mut PropMeta) {
-    m.rule = "REAL directory trees in a private scratch directory, the harness' cwd inside the tree, the real slicec::compile_from_options in-process. Universe (depth 4): a.slice b.slice notes.txt sub/c.slice pkg/{d.slice,readme.md,x.slice.bak,v2.slice/f.slice,deep/{slice,er/e.slice}} plus every subset of 6 optional entries (2^6 trees): empty directory pkg/empty/, file link sub/la.slice->../a.slice, directory link dl->sub, cycle sub/loop->., dangling link pkg/gone.slice, invalid-UTF-8 file pkg/deep/bad.slice (the 'unreadable' entry; the harness runs as root so permission bits are useless). Argument lists are EVERY (sources, references) pair of lists over the tree's 12-19 path spellings: a.slice ./a.slice sub/../a.slice <abs>/a.slice b.slice sub/c.slice, directories sub ./sub/ . (reference: expanded; source: error), missing.slice, notes.txt, and per option pkg/empty, sub/la.slice, dl/c.slice, dl, sub/loop/c.slice, pkg/gone.slice, pkg/deep/bad.slice. Oracle = reference resolver over the MODEL of the tree (identity = canonical path computed on the model): state.files mapped back to identities must be the source identities in the given order flagged is_source, then the not-yet-present reference identities in argument order with each directory expansion an unordered group, every identity once, every file parsed, no E001; exactly one DuplicateFile at level Warning per repeat within one list (also repeats arising through directory expansion and links) and none across lists; nonexistent / non-.slice / directory-as-source / unreadable reached file => at least one E001 at level Error and nothing parsed (no module, no contents in any returned file). Softenings: when a reference directory expansion runs into the cycle the DuplicateFile count is only bounded from below and an E001 is tolerated (ELOOP depth is the OS's business); a dangling *.slice link below a reference directory may be ignored or reported; repeats of error entries may or may not be warned about; on error scenarios the returned file list is not compared. A case = (tree, sources list, first reference) and runs every reference list with that first element; the real scenario count is extra_counters.scenarios (= steps = validated), per-scenario outcome classes (files returned, DuplicateFile warnings, E001 present) are extra_counters.scenario_class[..]. Non-trivial scenario = the argument lists reach at least one file twice or contain an error entry; non-trivial case = that already holds for the part shared by all its scenarios (sources + first reference); extra_counters.scenarios_nontrivial counts scenarios.";
+    m.rule = "REAL directory trees in a private scratch directory, the harness' cwd inside the tree, the real slicec::compile_from_options in-process. Universe (depth 4): a.slice b.slice notes.txt sub/c.slice pkg/{d.slice,readme.md,x.slice.bak,v2.slice/f.slice,deep/{slice,er/e.slice}} plus every subset of 6 optional entries (2^6 trees): empty directory pkg/empty/, file link sub/la.slice->../a.slice, directory link dl->sub, cycle sub/loop->., dangling link pkg/gone.slice, invalid-UTF-8 file pkg/deep/bad.slice (the 'unreadable' entry; the harness runs as root so permission bits are useless). Argument lists are EVERY (sources, references) pair of lists over the tree's 12-19 path spellings: a.slice ./a.slice sub/../a.slice <abs>/a.slice b.slice sub/c.slice, directories sub ./sub/ . (reference: expanded; source: error), missing.slice, notes.txt, and per option pkg/empty, sub/la.slice, dl/c.slice, dl, sub/loop/c.slice, pkg/gone.slice, pkg/deep/bad.slice. Oracle = reference resolver over the MODEL of the tree (identity = canonical path computed on the model): state.files mapped back to identities must be the source identities in the given order flagged is_source, then the not-yet-present reference identities in argument order with each directory expansion an unordered group, every identity once, every file parsed, no E001; exactly one DuplicateFile at level Warning per repeat within one list (also repeats arising through directory expansion and links) and none across lists; nonexistent / non-.slice / directory-as-source / unreadable reached file => at least one E001 at level Error and nothing parsed (no module, no contents in any returned file). Softenings: when a reference directory expansion runs into the cycle the DuplicateFile count is only bounded from below and an E001 is tolerated (ELOOP depth is the OS's business); a dangling *.slice link (or, in the two special-files trees, a FIFO / a link to /dev/null named *.slice) below a reference directory may be ignored or reported, but listed directly each is an E001; repeats of error entries may or may not be warned about; on error scenarios the returned file list is not compared. A case = (tree, sources list, first reference) and runs every reference list with that first element; the real scenario count is extra_counters.scenarios (= steps = validated), per-scenario outcome classes (files returned, DuplicateFile warnings, E001 present) are extra_counters.scenario_class[..]. Non-trivial scenario = the argument lists reach at least one file twice or contain an error entry; non-trivial case = that already holds for the part shared by all its scenarios (sources + first reference); extra_counters.scenarios_nontrivial counts scenarios.";
     m.explanation = "exhaustive enumeration of argument lists over real directory trees (files, links, cycle, dangling link, unreadable file) against a reference resolver on the model tree";
     m.quick_bound = "32 trees without the cycle x all lists of <=2 sources + <=2 references (1.5M compilations); 32 trees with the cycle x <=2 sources + <=1 reference; tree {cycle} x <=2 + <=2 (a directory expansion into the cycle costs ~1 ms, everything else ~45 us)";
     m.thorough_bound = "all 64 trees x <=2 sources + <=2 references; 7 trees without the cycle (no option, each single option, all five) additionally x (3 sources + <=2 references) and (<=2 sources + 3 references); tree {cycle} x 3 sources + <=2 references; the tree with all five non-cycle options x 3 sources + 3 references (so <=3 + <=3 is complete on that tree only: the full product 64 trees x <=3 + <=3 would be ~5e8 compilations); 34M compilations in total";
@@ -924,6 +967,8 @@ pub fn families(tier: &str) -> Vec<Box<dyn Family>> {
         Box::new(Lists::over("plain tree and tree {file-link, dir-link} x sources of 4..5 entries over 4 spellings (2 of one file) x references<=1", pick(&|b| b == 0 || b == 6), (4, 5), (0, 1), Some(few))),
         Box::new(Lists::over("plain tree and tree {file-link, dir-link} x sources<=1 x references of 4..5 entries over 5 spellings (2 of one file, a directory)", pick(&|b| b == 0 || b == 6), (0, 1), (4, 5), Some(few_dir))),
     ];
+    // entries that exist, are named *.slice and are neither a regular file nor a directory
+    let special: Box<dyn Family> = Box::new(Lists::new("trees {special-files} and {special-files, file-link, dir-link} (a FIFO pkg/pipe.slice, a link sub/null.slice to /dev/null) x sources<=2 x references<=2", vec![SPECIAL_BIT, SPECIAL_BIT | 6], (0, 2), (0, 2)));
     let mut v: Vec<Box<dyn Family>> = if tier == "quick" {
         vec![
             Box::new(Lists::new("32 trees without the cycle x sources<=2 x references<=2", acyclic, (0, 2), (0, 2))),
@@ -942,5 +987,6 @@ pub fn families(tier: &str) -> Vec<Box<dyn Family>> {
         ]
     };
     v.extend(long);
+    v.push(special);
     v
 }
